@@ -153,7 +153,7 @@ def run(ctx):
     ranks = [1, 2, 3]
     cfg = '\n'.join(['CONSTANTS Ranks = {%s}' % ', '.join(str(r) for r in ranks),
                      'ClosurePatterns = {"PY", "HNC", "PY/HNC", "PYhc/HNC"}', 'PotentialPatterns = {"HS", "HS+Exp", "HCLJ"}',
-                     'OmegaPatterns = {"atomic", "gaussian", "fjc+ring", "copolymer"}', 'Ratios = {1, 3, 9}', 'Scales = {1, 4, 15, 100}',
+                     'OmegaPatterns = {"atomic", "gaussian", "fjc+ring", "copolymer"}', 'Ratios = {1, 3, 9, 40000}', 'Scales = {1, 4, 15, 100}',
                      'INIT MCInit', 'NEXT Next', 'VIEW View', 'CHECK_DEADLOCK FALSE', 'PROPERTIES ContentPreserved', 'ACTION_CONSTRAINT Edge', ''])
     res = run_tlc('MC_Reformulate', cfg, ctx.tmp, seed=ctx.seed)
     require_clean(res, 'Reformulate')
